@@ -1,5 +1,6 @@
-"""Witness (run by hand): five ways in which a generated stub uses names it does not provide.
-    cd /verif/witness && /venv/bin/python c11_stub_names.py
+"""Witness (run by hand): six ways in which a generated stub uses names it does not provide; prints which of them the
+tree it runs against still shows (the first four were repaired in /repo, see known_findings.json `fixed`).
+    cd /verif/witness && PYTHONPATH=/repo /venv/bin/python c11_stub_names.py   (exit 1 while any is present)
 Builds throw-away modules utils / my.utils / foo / barfoo / mytyping / target in a temp dir."""
 import os, sys, tempfile, textwrap, importlib
 d = tempfile.mkdtemp()
@@ -23,10 +24,13 @@ cases = {
     "module prefix stripping (foo / barfoo)": (stub(Tuple[foo.Baz, barfoo.Qux]), "barQux"),
     "'typing.' replacement (module mytyping)": (stub(List[mytyping.X]), "myX"),
     "'NoneType' replacement (class NoneTypeHolder)": (stub(List[target.NoneTypeHolder]), "NoneHolder"),
-    "same-named classes of two modules": (stub(Tuple[utils.A, my.utils.A]), "Tuple[A, my.A]"),
+    "same-named classes of two modules": (stub(Tuple[utils.A, my.utils.A]), "Tuple[A, A]"),
     "fields of a generated TypedDict class": (stub(get_type({"k": [foo.Baz()]}, 5), target.g, 5), "List[foo.Baz]"),
 }
+present = []
 for name, (text, needle) in cases.items():
     print("----", name); print(text)
-    assert needle in text, name
-print("all six corruptions reproduced")
+    if needle in text:
+        print("WITNESSED:", repr(needle)); present.append(name)
+print("still present:", present or "none")
+sys.exit(1 if present else 0)
